@@ -238,7 +238,13 @@ pub fn run_case(ctx: &mut Ctx, fam: &str, _k: u64, r: &mut Rng) {
                 }
             }
             let targets: Vec<T<f64>> = wants.iter().map(|w| gen_target(r, &w.dims)).collect();
-            let desc = format!("model-reuse|{}|{}", spec.describe(), rounds.iter().map(|(k, t, _, bw)| format!("{}{:?}{}", k, t.dims, if *bw { "+bw" } else { "" })).collect::<Vec<_>>().join(","));
+            // one run in four on a model whose parameters are all frozen (inference, or scoring against targets, with a
+            // trained model)
+            let frozen = r.chance(1, 4);
+            if frozen {
+                ctx.count("reuse_runs_on_frozen_models", 1);
+            }
+            let desc = format!("model-reuse|{}{}|{}", spec.describe(), if frozen { "|all-parameters-frozen" } else { "" }, rounds.iter().map(|(k, t, _, bw)| format!("{}{:?}{}", k, t.dims, if *bw { "+bw" } else { "" })).collect::<Vec<_>>().join(","));
             ctx.case(&desc, rounds.iter().any(|(k, t, _, _)| *k == "view" && t.dims != base.dims));
             ctx.sample("reuse", || desc.clone());
             for (k, _, _, _) in &rounds[1..] {
@@ -247,6 +253,13 @@ pub fn run_case(ctx: &mut Ctx, fam: &str, _k: u64, r: &mut Rng) {
             let res = guard(|| {
                 let a = Acts::new();
                 let mut layers = build_layers(&spec, &a, &params);
+                if frozen {
+                    for l in layers.iter_mut() {
+                        for p in l.parameters() {
+                            p.stop_tracking();
+                        }
+                    }
+                }
                 let opt = GradientDescent::new(0.0);
                 let mut with_cost = |costf: &CostFunction| {
                     let refs: Vec<&mut dyn Layer> = layers.iter_mut().map(|s| s as &mut dyn Layer).collect();
